@@ -73,7 +73,9 @@ def run(job):
         sel = c17.extract_select(path).replace("Self::", "DT::")
         step = c17.extract_step(path)
     except Exception as ex:
-        rec("C04/aux/discriminant_type/extraction", "undecided", "-", "anchor lost: %r" % (ex,), "extraction")
+        # best effort (DESIGN 5 C04): a lost anchor drops the auxiliary obligations, it never alarms and never fails the check
+        job.aux_dropped = "C04 auxiliary generator-side obligations dropped: extraction anchor lost in discriminant_type.rs (%r)" % (ex,)
+        runlib.eprint("NOTE " + job.aux_dropped)
         return
     open(os.path.join(work, "src", "lib.rs"), "w").write(KANI % {"enum": enum_txt, "impl": impl_txt})
     open(os.path.join(work, "Cargo.toml"), "w").write('[package]\nname = "c04aux"\nversion = "0.0.0"\nedition = "2021"\n[lints.rust]\nunexpected_cfgs = { level = "allow", check-cfg = [\'cfg(kani)\'] }\n[workspace]\n')
